@@ -185,9 +185,16 @@ def run(ctx) -> list[Inst]:
     for nc in _calls(f, 'Node'):
         written |= {kw.arg for kw in nc.keywords if kw.arg}
     read = set()
+    # variables holding the property dictionary of a database node: `x = dict(<row>[...])`
+    node_dicts = set()
+    for n in own_nodes(g.node):
+        if isinstance(n, ast.Assign) and isinstance(n.targets[0], ast.Name) and isinstance(n.value, ast.Call) \
+                and isinstance(n.value.func, ast.Name) and n.value.func.id == 'dict' and n.value.args \
+                and isinstance(n.value.args[0], ast.Subscript):
+            node_dicts.add(n.targets[0].id)
     for n in own_nodes(g.node):
         if isinstance(n, ast.Subscript) and isinstance(n.slice, ast.Constant) and isinstance(n.slice.value, str) \
-                and isinstance(n.value, ast.Name) and n.value.id in ('asset_data', 'left_asset', 'right_asset'):
+                and isinstance(n.value, ast.Name) and n.value.id in node_dicts:
             read.add(n.slice.value)
     construct = '(d) node properties read by get_model are written by ingest_model'
     miss = sorted(read - written)
